@@ -18,8 +18,9 @@ RES = {"ok": "(Some ROk)", "err": "(Some RErr)", "ctx": "(Some RCtx)", "refused"
 def plan_coq(p):
     s1 = {"ok": "S1Ok", "fail": "S1Fail", "gate": "(S1Gate false)", "gate_ignore": "(S1Gate true)"}[p["s1"]]
     be = {"ok": "BeOk", "fail": "BeFail", "block": "BeBlock"}[p["be"]]
-    return "(mkPlan %s %d %s %s %s %s %s %s)" % (Emitter.b(p["kind"] == "sign"), p["topic"], Emitter.nlist(p["members"]), s1,
-                                                 Emitter.b(p["s1_then"] == "ok"), Emitter.b(p["s2_ok"]), be, Emitter.b(p["share_ok"]))
+    return "(mkPlan %s %d %s %s %s %s %s %s %s)" % (Emitter.b(p["kind"] == "sign"), p["topic"], Emitter.nlist(p["members"]), s1,
+                                                    Emitter.b(p["s1_then"] == "ok"), Emitter.b(p["s2_ok"]), be, Emitter.b(p["share_ok"]),
+                                                    Emitter.b(p.get("init_gate", False)))
 
 
 def step_coq(st):
@@ -151,7 +152,7 @@ def monitor_c11(sc):
                 hits.append(dict(what="unusable share data did not make Sign return an error", step=i, got=r))
             if p["s1"] == "fail" and r not in ("err", "refused"):
                 hits.append(dict(what="failed synchronisation did not make the call return an error", step=i, got=r))
-            if p["s1"] == "ok" and p["s2_ok"] and p["be"] == "fail" and r not in ("err", "refused"):
+            if p["s1"] == "ok" and not p.get("init_gate") and p["s2_ok"] and p["be"] == "fail" and r not in ("err", "refused"):
                 hits.append(dict(what="backend error was not returned", step=i, got=r))
     return hits
 
@@ -205,6 +206,17 @@ def run(pid, tier, seed):
         chk.violation("harness.txt", "harness failed (exit %d):\n%s" % (rc, out[-4000:]), no_input=True)
         return chk.finish()
     scen = vlib.read_jsonl(path)
+    if pid in ("C11", "C12"):
+        # refusing two replicas of one party is C06's clause: histories containing such a session are C06's business only
+        def has_dup(sc):
+            mm = {int(u): p for u, p in sc["membership"].items()}
+            for st in sc["steps"]:
+                if st["op"] == "start":
+                    pids = [mm.get(u, 0) for u in st["plan"]["members"]]
+                    if len(set(pids)) != len(pids):
+                        return True
+            return False
+        scen = [sc for sc in scen if not has_dup(sc)]
     mon = {"C06": monitor_c06, "C11": monitor_c11, "C12": monitor_c12}[pid]
     nh = 0
     for sc in scen:
